@@ -122,6 +122,11 @@ class Runner:
             except Boom:
                 if ch.get("catch_here", True) is False:
                     raise
+        if node.get("poke"):
+            # the body (or a library it calls) writes the register itself: flips control bits the context did or did not manage, clears an
+            # exception mask, raises sticky flags.  "On exit the register holds exactly the value it had on entry" covers that as well.
+            self.probe.set(self.probe.get() ^ node["poke"])
+            self.rec.count("events:body-writes-register")
         if node.get("raises"):
             raise Boom()
 
@@ -156,9 +161,9 @@ class Runner:
             self.rec.count("events:exit-exception" if raised else "events:exit-normal")
             if after != before:
                 self.violation("exit-does-not-restore" + ("-after-exception" if raised else ""), path=path, before=hex(before), after=hex(after), args=node["args"], form=form)
-            self.check_arith("after-exit", after)
-            if after != before:
-                probe.set(before)  # keep judging the rest of the history from a sane state
+                probe.set(before)  # first: a leaked unmasked exception would turn the next floating-point operation into SIGFPE; then keep judging from a sane state
+            else:
+                self.check_arith("after-exit", after)
 
     def run_history(self, ambient, tree, desc):
         self.hist = desc
@@ -194,7 +199,7 @@ def prepare(fpu, probe, node, create_ambient):
 
 
 def strip(node):
-    return dict(form=node["form"], args=node["args"], raises=bool(node.get("raises")), children=[strip(c) for c in node.get("children", [])])
+    return dict(form=node["form"], args=node["args"], raises=bool(node.get("raises")), poke=hex(node.get("poke", 0)), children=[strip(c) for c in node.get("children", [])])
 
 
 ARGSETS = [dict(FZ=a, DAZ=b, RN=c) for a, b, c in itertools.product([None, False, True], [None, False, True], [None, "nearest", "down", "up", "towardszero"])]
@@ -218,6 +223,9 @@ def mods():
     return fpu
 
 
+POKES = [0x8000, 0x0040, 0x2000, 0x4000, 0x6000, 0x0800, 0x1000, 0x003F, 0x0001, 0x8040, 0xE040]
+
+
 def task_exhaustive(params, rec):
     fpu = mods()
     probe = Probe()
@@ -235,6 +243,15 @@ def task_exhaustive(params, rec):
                     R.run_history(amb, tree, dict(ambient=hex(amb), tree=strip(tree)))
                     if nontrivial(amb, tree):
                         rec.cls(1, form, tuple(sorted(a.items(), key=str)), raises, hex(amb))
+        # depth 1 with a body that writes the register itself, every kind of write, both exits
+        for pk in POKES:
+            for raises in (False, True):
+                for form in ("with", "decorator"):
+                    amb = AMBIENTS[(i + pk) % len(AMBIENTS)]
+                    tree = dict(form=form, args=a, raises=raises, poke=pk)
+                    prepare(fpu, probe, tree, AMBIENTS[(AMBIENTS.index(amb) + 1) % len(AMBIENTS)])
+                    R.run_history(amb, tree, dict(ambient=hex(amb), tree=strip(tree)))
+                    rec.cls(1, form, "poke", hex(pk), raises, i)
         # depth 2: all ordered pairs
         for j, b in enumerate(ARGSETS):
             amb = AMBIENTS[(i + j) % len(AMBIENTS)]
@@ -259,6 +276,8 @@ def rand_tree(rnd, depth, maxdepth, shared):
     form = rnd.choice(["with", "with", "precreated", "decorator", "shared"])
     args = rnd.choice(ARGSETS)
     node = dict(form=form, args=args, raises=rnd.random() < 0.2)
+    if rnd.random() < 0.25:
+        node["poke"] = rnd.choice(POKES)
     if form == "shared":
         # one context object re-used sequentially (and, sometimes, re-entered while active: a loud refusal is accepted)
         node["form"] = "precreated"
